@@ -650,3 +650,47 @@ func Check(r *Run) []Finding {
 	}
 	return CheckParallel(r)
 }
+
+// Differential compares a base-mode run with a modifier-mode run of the same
+// flow under the same scenario (C20): same nil-ness, same Results, and an
+// error that is the same injected fault.
+func Differential(base, mod *Run) []Finding {
+	var out []Finding
+	add := func(f string, a ...interface{}) { out = append(out, Finding{"C20", fmt.Sprintf(f, a...)}) }
+	if mod.Panicked != nil {
+		add("modifier-mode code panicked: %v", mod.Panicked)
+		return out
+	}
+	if base.Panicked != nil {
+		return out // base-mode problem: C04's business
+	}
+	if (base.Err == nil) != (mod.Err == nil) {
+		add("base-mode code returned %v, modifier-mode code returned %v", firstLineOrNil(base.Err), firstLineOrNil(mod.Err))
+		return out
+	}
+	if base.Err == nil {
+		for k := range base.Env.Spec.Results {
+			if base.Env.Results[k] != mod.Env.Results[k] {
+				add("Results target %d: base-mode code left tag %d, modifier-mode code %d", k, base.Env.Results[k], mod.Env.Results[k])
+			}
+		}
+		return out
+	}
+	// both failed: the modifier-mode error must be one of ITS injected faults of
+	// the same kind (unit) as some fault of the base run
+	ok := false
+	for _, inj := range mod.Env.Injected {
+		if matchInjected(mod.Err, inj) {
+			ok = true
+		}
+	}
+	if !ok && !isCtxErr(mod.Err) {
+		add("modifier-mode code returned %q which is not the error or PanicError of any task that failed", firstLine(mod.Err))
+	}
+	for k := range mod.Env.Spec.Results {
+		if got, have := mod.Env.Results[k]; have && got != mod.Env.SentinelTag(k) {
+			add("modifier-mode code failed but modified Results target %d", k)
+		}
+	}
+	return out
+}
